@@ -850,9 +850,10 @@ static int _parse_inline(qaconf_t *qaconf, FILE *fp, uint8_t flags,
                             }
                         } else if (argtype == 3) {
                             // bool type
-                            if (_is_str_bool(cbdata->argv[j]) != 0) {
-                                // Change argument to "1".
-                                strcpy(cbdata->argv[j], "1");
+                            int boolval = _is_str_bool(cbdata->argv[j]);
+                            if (boolval >= 0) {
+                                // Change argument to "1" or "0".
+                                strcpy(cbdata->argv[j], (boolval > 0) ? "1" : "0");
                             } else {
                                 EXITLOOP(
                                         "%dth argument of '%s' must be bool type.",
@@ -1010,6 +1011,9 @@ static int _is_str_number(const char *s) {
     return 1;
 }
 
+// return 1 for true, on, yes, 1
+// return 0 for false, off, no, 0
+// return -1 for non bool
 static int _is_str_bool(const char *s) {
     if (!strcasecmp(s, "true"))
         return 1;
@@ -1019,7 +1023,15 @@ static int _is_str_bool(const char *s) {
         return 1;
     else if (!strcasecmp(s, "1"))
         return 1;
-    return 0;
+    else if (!strcasecmp(s, "false"))
+        return 0;
+    else if (!strcasecmp(s, "off"))
+        return 0;
+    else if (!strcasecmp(s, "no"))
+        return 0;
+    else if (!strcasecmp(s, "0"))
+        return 0;
+    return -1;
 }
 
 #endif /* _DOXYGEN_SKIP */
